@@ -158,6 +158,20 @@ def catalogue():
     add("LoftedShape(sketches)", "4 vs 2 faces", "out", lambda: cb.LoftedShape(g22(), g21()))
     add("LoftedShape(sketches)", "mid 2 faces", "out", lambda: cb.LoftedShape(g22(), g22().translate([0, 0, 1]), g21()))
     add("LoftedShape(sketches)", "mid 4 faces", "in", lambda: cb.LoftedShape(g22(), g22().translate([0, 0, 1]), g22().translate([0, 0, 0.5])))
+    # --- axis and corner indexes of stacks and faces
+    stack_232 = lambda: cb.ExtrudedStack(cb.Grid([0, 0, 0], [2, 3, 0], 2, 3), 2.0, 2)  # noqa: E731
+    for axis, exp in ((-1, "out"), (0, "in"), (1, "in"), (2, "in"), (3, "out")):
+        add("Stack.get_slice(axis)", axis, exp, lambda axis=axis: stack_232().get_slice(axis, 0))
+    for corner, exp in ((-1, "out"), (0, "in"), (3, "in"), (4, "out")):
+        add("Face.project_edge(corner)", corner, exp, lambda corner=corner: cb.Face([[0, 0, 0], [1, 0, 0], [1, 1, 0], [0, 1, 0]]).project_edge(corner, "geo"))
+
+        def twice(corner=corner):
+            f = cb.Face([[0, 0, 0], [1, 0, 0], [1, 1, 0], [0, 1, 0]])
+            for i in range(4):
+                f.project_edge(i, "geo")
+            f.project_edge(corner, "other")
+
+        add("Face.project_edge(corner) on projected edges", corner, exp, twice)
     # a list of middle sketches: every list of <= 3 over {4 faces, 2 faces, 6 faces}; accepted iff all have 4
     import itertools as _it
 
